@@ -211,7 +211,14 @@ func genFilterSpec(r *RNG, t *TypeSpec, depth int) map[string]any {
 		for i := r.Intn(3); i > 0; i-- {
 			kids = append(kids, genFilterSpec(r, t, depth-1))
 		}
-		return map[string]any{"o": r.Pick([]string{"and", "or"}), "v": kids}
+		node := map[string]any{"o": r.Pick([]string{"and", "or"}), "v": kids}
+		if r.Chance(1, 4) {
+			node["c"] = r.Pick([]string{"nocase", "unicode_ci", "a b"}) // a collation on a logical node is part of the tree
+		}
+		if r.Chance(1, 8) {
+			node["f"] = "ignored-on-logical-nodes"
+		}
+		return node
 	}
 	f := "x"
 	if t != nil && len(t.Attrs) > 0 {
@@ -332,7 +339,7 @@ func genURL(r *RNG, s *SchemaSpec) *URLSpec {
 			}
 			u.Params = append(u.Params, QP{"include", strings.Join(shuffleStrings(r, paths), ",")})
 		case 7:
-			u.Params = append(u.Params, QP{"page[" + r.Pick([]string{"size", "number", "size", "number", "cursor", "a b", "x]y", ""}) + "]", r.Pick([]string{"0", "1", "10", "007", "-3", "abc", "a b", "a&b", "9223372036854775808", "1e3", "", "%"})})
+			u.Params = append(u.Params, QP{"page[" + r.Pick([]string{"size", "number", "size", "number", "cursor", "a b", "x]y", ""}) + "]", r.Pick([]string{"0", "1", "10", "007", "-3", "abc", "a b", "a&b", "9223372036854775808", "1e3", "", "%", " ", "  ", "\t", " 1", "1 ", "+"})})
 		case 8, 9:
 			switch r.Intn(6) {
 			case 0:
@@ -341,9 +348,10 @@ func genURL(r *RNG, s *SchemaSpec) *URLSpec {
 				u.Params = append(u.Params, QP{"filter", r.Pick([]string{"label", "a_label", "a b", "a&b", "x?y", "a#b", "50%", "a+b", "a/b", "é", "{", "\"", "a\\nb", "[1]",
 					`ring\u0007bell`, `del\u007fchar`, `a\\b`, `\"q\"`, `\u00e9`, `\ud83d\ude00`, `tab\tx`, `\u007Bx`, `\u000b`, `\udb40\udc01`, `a\/b`, `<\u003e&`,
 					// labels whose FIRST character (given as an escape) is one a JSON value can start with
-					`\u005bdraft]`, `\u005b]`, `\u005b{}]`, `\u0022q`, `\u0074rue`, `\u006eull`, `\u0031`, `\u002d1`, `\u0020lead`, "true", "null", "12", "-1"})})
+					`\u005bdraft]`, `\u005b]`, `\u005b{}]`, `\u0022q`, `\u0074rue`, `\u006eull`, `\u0031`, `\u002d1`, `\u0020lead`, "true", "null", "12", "-1", "\xff", "a\xc3", "\xed\xa0\x80z", "ok\xfe\xff"})})
 			case 3:
-				u.Params = append(u.Params, QP{"filter", r.Pick([]string{`{invalid}`, `{"f":1}`, `{"o":"and","v":5}`, `{"o":"or","v":[1]}`, `{}`, `{"f":"a","o":"=","v":"x"} trailing`})})
+				u.Params = append(u.Params, QP{"filter", r.Pick([]string{`{invalid}`, `{"f":1}`, `{"o":"and","v":5}`, `{"o":"or","v":[1]}`, `{}`, `{"f":"a","o":"=","v":"x"} trailing`,
+					`{"o":"and"}`, `{"o":"or"}`, `{"o":"and","v":null}`, `{"o":"and","v":[{"o":"or"}]}`, `{"o":"or","v":[{"o":"and","v":[]},{"o":"or"}]}`, `{"f":"a","o":"="}`, `{"o":"in","f":"a"}`, `{"o":"and","v":""}`, `{"v":[]}`})})
 			default:
 				b, _ := json.Marshal(genFilterSpec(r, rt, 3))
 				u.Params = append(u.Params, QP{"filter", string(b)})
